@@ -319,6 +319,41 @@ fn memb08(out: &str) -> u64 {
             id += 1;
         }
     }
+    // every request kind as the FIRST request after the requester was disabled (a re-check forgotten for one
+    // kind is otherwise masked by the revocation a request of another kind has already caused), for a room
+    // admitted by the room list and for a room admitted by a definition-change event
+    let firsts: Vec<String> = {
+        let mut v = vec![];
+        queries_short(&mut v, 1, 1);
+        v.into_iter().filter(|q| !q.contains("kind=RoomList")).collect()
+    };
+    for q in &firsts {
+        for by_event in [false, true] {
+            let mut l: Vec<String> = vec![];
+            world_ops(&mut l, "never");
+            l.push(format!("now t={}", t(15)));
+            l.push("open c=1".into());
+            l.push(format!("auth c=1 k={} ready=1", K));
+            if by_event {
+                l.push("q c=1 kind=RoomList".into());
+            }
+            l.push(format!("{} t={}", m("user", 1, 0), t(16)));
+            if !by_event {
+                l.push("q c=1 kind=RoomList".into());
+            }
+            l.push(q.clone());
+            l.push(format!("{} t={}", m("user", 0, 0), t(17)));
+            l.push(format!("now t={}", t(18)));
+            l.push(q.clone());
+            l.push(q.clone());
+            l.push("q c=1 kind=Nodes r=3 ids=31".into());
+            writeln!(w, "case id={} prop=C08 scen=first-after-disable by_event={}", id, by_event as u8).unwrap();
+            for x in l {
+                writeln!(w, "{}", x).unwrap();
+            }
+            id += 1;
+        }
+    }
     w.flush().unwrap();
     id
 }
